@@ -602,14 +602,17 @@ func (e *engine) eval() error {
 					}
 				}
 			}
+			// The facts derived in this round become the delta of the next round.
+			// They have to be merged into the store before that round starts, so
+			// that delta rules can join them with each other.
+			e.deltaStore = newDeltaStore
+			e.temporalDeltaStore = newTemporalDeltaStore
 			if err := e.mergeDelta(); err != nil {
 				return err
 			}
 			if e.options.totalFactLimit > 0 && e.store.EstimateFactCount() > e.options.totalFactLimit {
 				return fmt.Errorf("fact size limit reached %d > %d", e.store.EstimateFactCount(), e.options.totalFactLimit)
 			}
-			e.deltaStore = newDeltaStore
-			e.temporalDeltaStore = newTemporalDeltaStore
 			if !incrementalFactAdded {
 				break
 			}
